@@ -120,8 +120,19 @@ def eval_expression(expr: str, context: dict) -> Any:
     # the value in the dict for eval
     expr_locals = {}
     regex_pattern = r"\$([a-zA-Z_][a-zA-Z0-9_]*)"
-    var_names = re.findall(regex_pattern, expr)
-    updated_expr = re.sub(regex_pattern, r"var_\1", expr)
+    # The text inside string literals is left untouched (e.g. "pay in $USD")
+    var_names = []
+    updated_expr = ""
+    last_end = 0
+    for string_match in re.finditer(string_pattern, expr):
+        segment = expr[last_end : string_match.start()]
+        var_names.extend(re.findall(regex_pattern, segment))
+        updated_expr += re.sub(regex_pattern, r"var_\1", segment)
+        updated_expr += string_match.group(0)
+        last_end = string_match.end()
+    segment = expr[last_end:]
+    var_names.extend(re.findall(regex_pattern, segment))
+    updated_expr += re.sub(regex_pattern, r"var_\1", segment)
 
     for var_name in var_names:
         # if we've already computed the value, we skip
